@@ -365,6 +365,18 @@ func run(c *core.Ctx) {
 			check(d, want, "explore."+d.Format, cs, got, explore.Deviations(x.Trace)*100000+len(d.Data))
 			return c.Evals%512 != 0 || !c.Expired()
 		})
+		// the same bytes behind readers with other method sets (Len, Seek, WriteTo, ReadByte ... or Read alone)
+		if c.Mine() {
+			for _, k := range readerKinds(d.Data) {
+				if _, seeks := k.rd.(io.Seeker); d.Format == "ts" && !seeks {
+					continue // the transport stream reader rewinds the stream (documented): seekable readers only
+				}
+				got := outcome(d.Format, k.rd)
+				cs := Case{Doc: d.Name, Format: d.Format, Data: d.Data, Policy: "reader-kind:" + k.name}
+				c.Transitions++
+				check(d, want, "kinds."+d.Format, cs, got, 40000+len(d.Data))
+			}
+		}
 		// fixed schedules
 		type pol struct {
 			mode string
@@ -454,6 +466,51 @@ func run(c *core.Ctx) {
 			}
 		}
 	}
+	// a long line that makes the scanner grow its buffer to B, then short CR LF / CR terminated lines: full reads
+	// now end wherever the shifted buffer ends, so over the residues of the long line's length a CR sits on the last
+	// byte of a full buffer of every size the scanner passes through
+	bsizes := []int{4096, 8192, 65536}
+	if c.Tier == core.Thorough {
+		bsizes = []int{4096, 8192, 16384, 32768, 65536}
+	}
+	for _, f := range []string{"srt", "vtt", "ssa"} {
+		for _, B := range bsizes {
+			for res := 0; res < 4; res++ {
+				for _, le := range []string{"\r\n", "\r"} {
+					if !c.Mine() {
+						continue
+					}
+					long := strings.Repeat("x", B/2+1+res)
+					var doc string
+					switch f {
+					case "srt":
+						doc = "1\n00:00:01,000 --> 00:00:02,000\n" + long + "\n" + strings.Repeat("y\n", B) + "\n2\n00:00:03,000 --> 00:00:04,000\nz\n"
+					case "vtt":
+						doc = "WEBVTT\n\n00:00:01.000 --> 00:00:02.000\n" + long + "\n" + strings.Repeat("y\n", B) + "\n00:00:03.000 --> 00:00:04.000\nz\n"
+					default:
+						doc = "[Script Info]\n; " + long + "\n" + strings.Repeat(";y\n", B) + "\n[Events]\nFormat: Start, End, Text\nDialogue: 0:00:01.00,0:00:02.00,z\n"
+					}
+					data := []byte(strings.ReplaceAll(doc, "\n", le))
+					name := fmt.Sprintf("%s-long-line-to-buffer-%d-residue-%d-%q", f, B, res, le)
+					want := outcome(f, bytes.NewReader(data))
+					for _, k := range readerKinds(data) {
+						got := outcome(f, k.rd)
+						c.Traces++
+						c.Transitions++
+						cs := Case{Doc: name, Format: f, Data: data, Policy: "reader-kind:" + k.name, K: B}
+						c.Record("shifted."+f, core.Hash64(got), core.Hash64(name, k.name), func() interface{} { return map[string]interface{}{"doc": name, "reader": k.name} })
+						if got != want {
+							key := "sched." + f + ".depends-on-reader-kind"
+							if got == "panic" || want == "panic" {
+								key = "sched." + f + ".panic"
+							}
+							c.Violate("shifted", key, fmt.Sprintf("document %s (%d bytes): read from a bytes.Reader and from a %s holding the same bytes the results differ\n--- bytes.Reader:\n%s\n--- %s:\n%s", name, len(data), k.name, trunc(want), k.name, trunc(got)), cs, 500000+B+res)
+						}
+					}
+				}
+			}
+		}
+	}
 	for k := range pts {
 		c.State(core.Hash64(k))
 	}
@@ -505,6 +562,7 @@ type readerKind struct {
 func readerKinds(data []byte) []readerKind {
 	return []readerKind{
 		{"read-only", struct{ io.Reader }{bytes.NewReader(data)}},
+		{"read-seek-only", struct{ io.ReadSeeker }{bytes.NewReader(data)}},
 		{"strings.Reader", strings.NewReader(string(data))},
 		{"bytes.Buffer", bytes.NewBuffer(append([]byte{}, data...))},
 		{"bufio.Reader", bufio.NewReaderSize(struct{ io.Reader }{bytes.NewReader(data)}, 16)},
